@@ -103,6 +103,10 @@ def _units(tier, seed):
     out = [{"k": "accept", "len": 2, "prefix": None}]                 # all strings of length 0..2
     for length in range(3, n_for(tier) + 1):
         out += [{"k": "accept", "len": length, "prefix": [i, j]} for i in range(k) for j in range(k)]
+    # one foreign character at a time: every code point of the sweep list inserted at / substituted in every position
+    # of a few valid templates (catches character-class slips outside the 13-symbol alphabet, e.g. a `+-:` range)
+    cps = sweep_code_points()
+    out += [{"k": "sweep", "lo": i, "hi": min(i + 64, len(cps))} for i in range(0, len(cps), 64)]
     nops = len(ATTRS) * len(VALUES)
     out += [{"k": "assign", "len": 1, "start": si, "first": None} for si in range(len(STARTS))]
     for length in range(2, depth_for(tier) + 1):
@@ -110,9 +114,50 @@ def _units(tier, seed):
     return out
 
 
+SWEEP_TEMPLATES = ["0", "1.0", "1:0", "1:2.0-1", "a-b-c", "1.0~rc1+b2-0ubuntu1"]
+
+
+def sweep_code_points():
+    cps = list(range(0, 0x250))
+    for base in (0x660, 0x6F0, 0x966, 0xFF10, 0x1D7CE):          # other decimal digits
+        cps += list(range(base, base + 10))
+    cps += [0x391, 0x410, 0xFF21, 0xFF41, 0x2028, 0x2029, 0x200B, 0xFEFF, 0x3000, 0x2212, 0x2010, 0xFF0E, 0xFF1A, 0xFF5E]
+    return cps
+
+
+def sweep_strings(cp):
+    c = chr(cp)
+    seen = []
+    for t in SWEEP_TEMPLATES:
+        for i in range(len(t) + 1):
+            seen.append(t[:i] + c + t[i:])
+        for i in range(len(t)):
+            seen.append(t[:i] + c + t[i + 1:])
+    return sorted(set(seen))
+
+
+def unit_sweep(part, u, seed):
+    cps = sweep_code_points()[u["lo"]:u["hi"]]
+    for cp in cps:
+        for s in sweep_strings(cp):
+            bad, cls, nontrivial = run_string(s)
+            part.states += 1
+            part.transitions += 1
+            part.traces += 1
+            part.evaluations += 1
+            part.outcomes["sweep/" + cls] += 1
+            part.nontrivial += nontrivial
+            for sig, exp, obs in bad:
+                part.violation(sig, {"k": "string", "s": s}, exp, obs, rank=100 + len(s))
+    part.sample({"k": "string", "s": sweep_strings(cps[0])[0]})
+    return part
+
+
 def unit_cost(u, tier):
     if u["k"] == "accept":
         return len(SYMBOLS) ** max(0, u["len"] - 2)
+    if u["k"] == "sweep":
+        return 64 * 100
     return 3 * (len(ATTRS) * len(VALUES)) ** max(0, u["len"] - 1)
 
 
@@ -256,6 +301,8 @@ def run_unit(u, tier, seed):
     part = core.Part()
     if u["k"] == "accept":
         return unit_accept(part, u, seed)
+    if u["k"] == "sweep":
+        return unit_sweep(part, u, seed)
     return unit_assign(part, u, seed)
 
 
